@@ -306,18 +306,57 @@ type vLiveCard struct {
 	buf       []byte
 	period    time.Duration
 	t0        time.Time
+	// like the driver (and lancero.NoHardware), the card refuses to start what runs and to stop what does not
+	adapOn, collOn bool
+	// stopCollFaultAt: the StopCollector call with this number (1 is the one that ends the sampling phase, 2 ends the first run)
+	// stops the collector but reports a driver error all the same
+	stopCollFaultAt int
+	stopCollCalls   int
 }
 
-func (k *vLiveCard) ChangeRingBuffer(int, int) error              { return nil }
-func (k *vLiveCard) Close() error                                   { return nil }
-func (k *vLiveCard) StartAdapter(int, int) error                    { return nil }
-func (k *vLiveCard) StopAdapter() error                             { return nil }
+func (k *vLiveCard) ChangeRingBuffer(int, int) error { return nil }
+func (k *vLiveCard) Close() error                      { return nil }
+func (k *vLiveCard) StartAdapter(int, int) error {
+	k.mu.Lock()
+	defer k.mu.Unlock()
+	if k.adapOn {
+		return fmt.Errorf("scripted card: StartAdapter: already started")
+	}
+	k.adapOn = true
+	return nil
+}
+func (k *vLiveCard) StopAdapter() error {
+	k.mu.Lock()
+	defer k.mu.Unlock()
+	if !k.adapOn {
+		return fmt.Errorf("scripted card: StopAdapter: not started")
+	}
+	k.adapOn = false
+	return nil
+}
 func (k *vLiveCard) CollectorConfigure(int, int, uint32, int) error { return nil }
-func (k *vLiveCard) StopCollector() error                           { return nil }
+func (k *vLiveCard) StopCollector() error {
+	k.mu.Lock()
+	defer k.mu.Unlock()
+	if !k.collOn {
+		return fmt.Errorf("scripted card: StopCollector: collector stopped already")
+	}
+	k.collOn = false
+	k.stopCollCalls++
+	if k.stopCollCalls == k.stopCollFaultAt {
+		return fmt.Errorf("scripted card: the driver reports an error while stopping the collector")
+	}
+	return nil
+}
 func (k *vLiveCard) InspectAdapter() uint32                         { return 0 }
 func (k *vLiveCard) Wait() (time.Time, time.Duration, error)        { return time.Now(), 0, nil }
 func (k *vLiveCard) StartCollector(bool) error {
 	k.mu.Lock()
+	if k.collOn {
+		k.mu.Unlock()
+		return fmt.Errorf("scripted card: StartCollector: collector started already")
+	}
+	k.collOn = true
 	k.collStart++
 	k.buf = nil
 	k.mu.Unlock()
